@@ -71,6 +71,8 @@ var (
 	fontData []byte
 	nameless []byte
 	FontErr  error
+
+	sharedFace *canvas.FontFace
 )
 
 // Fonts loads the shared font family once (the property allows sharing a loaded font between goroutines).
@@ -81,6 +83,7 @@ func Fonts() {
 		if FontErr != nil {
 			return
 		}
+		sharedFace = family.Face(10.0, canvas.Black)
 		fontData, FontErr = os.ReadFile("/repo/resources/DejaVuSerif.ttf")
 		if FontErr == nil {
 			nameless = stripNames(fontData)
@@ -220,8 +223,7 @@ func Jobs(seed int64, n int, kinds string) []Job {
 				texts := []string{"abc def", "\u05d0\u05d1\u05d2 \u05d3\u05d4", "AV fi", "\u05e9\u05dc\u05d5\u05dd"}
 				txt := texts[r.Intn(len(texts))]
 				return Job{fmt.Sprintf("textline/%d", s), func() string {
-					face := family.Face(10.0, canvas.Black)
-					t := canvas.NewTextLine(face, txt, canvas.Left)
+					t := canvas.NewTextLine(sharedFace, txt, canvas.Left) // one face object shared by all jobs
 					var out strings.Builder
 					t.WalkSpans(func(x, y float64, span canvas.TextSpan) {
 						fmt.Fprintf(&out, "%.6f,%.6f,%q,%.6f,", x, y, span.Text, span.Width)
